@@ -7,9 +7,9 @@ Pow2(k) == CASE k = 0 -> 1 [] k = 1 -> 2 [] k = 2 -> 4 [] k = 3 -> 8 [] k = 4 ->
 Cov(len, k) == IF len >= 8 * k THEN 8 ELSE IF len <= 8 * (k - 1) THEN 0 ELSE len - 8 * (k - 1)
 InNet(ip, net) == \A k \in 1..4 : (ip[k] \div Pow2(8 - Cov(net.len, k))) = (net.ip[k] \div Pow2(8 - Cov(net.len, k)))
 None == [ok |-> FALSE]
-\* IPv4 header starting at offset o (1-based) of f: present, version 4, IHL>=5 and inside the frame
+\* IPv4 header starting at offset o (1-based) of f: present, IHL>=5 and inside the frame
 IPv4At(f, o) ==
-  IF Len(f) < o + 19 \/ f[o] \div 16 # 4 \/ (f[o] % 16) < 5 \/ Len(f) < o + (f[o] % 16) * 4 - 1 THEN None
+  IF Len(f) < o + 19 \/ (f[o] % 16) < 5 \/ Len(f) < o + (f[o] % 16) * 4 - 1 THEN None      \* the version nibble is left open: neither gopacket nor libpcap's `ip` checks it, and the statement does not name it
   ELSE [ok |-> TRUE, at |-> o, hl |-> (f[o] % 16) * 4, ttl |-> f[o + 8], proto |-> f[o + 9],
         frag |-> (U16(f, o + 6) % 16384) # 0,                       \* MF set or fragment offset non-zero
         src |-> SubSeq(f, o + 12, o + 15), dst |-> SubSeq(f, o + 16, o + 19), next |-> o + (f[o] % 16) * 4]
